@@ -72,9 +72,10 @@ func NewSocketPair() (*Socket, *Socket, error) {
 		return nil, nil, fmt.Errorf("new socket pair: socketpair: %w", err)
 	}
 
+	// NewSocket has closed the descriptor it was given when it returns, also when it fails: closing it again here
+	// would hit whatever another goroutine opened under that number meanwhile
 	ins, err := NewSocket(fd[0])
 	if err != nil {
-		syscall.Close(fd[0])
 		syscall.Close(fd[1])
 		return nil, nil, fmt.Errorf("new socket pair: sender: %w", err)
 	}
@@ -82,7 +83,6 @@ func NewSocketPair() (*Socket, *Socket, error) {
 	outs, err := NewSocket(fd[1])
 	if err != nil {
 		ins.Close()
-		syscall.Close(fd[1])
 		return nil, nil, fmt.Errorf("new socket pair: receiver: %w", err)
 	}
 
